@@ -10,6 +10,10 @@ EXTENDS Ref, Judge
 ReadOps == {"Read", "Sweep"}
 
 \* fn: entry point; in: input; rr: its recorded result [ok, ser, serok, rem, hasrem, acc]; e: the event (for extra arguments)
+HashQueries == {"Hash", "IdentHash", "Base32Address", "Base64", "Equals", "Equal", "Bytes"}
+VerifyQueries == {"Verify", "VerifySignature"}
+ValidateQueries == {"Validate", "IsValid", "ValidateStructure"}
+TimeQueries == {"ExpirationTime", "PublishedTime", "ExpiresTime", "Time", "Date", "IsExpired", "NewestExpiration", "OldestExpiration", "Expiration", "Published"}
 JReadOne(fn, in, rr, e) ==
   LET ref == RefParse(fn, in, e)        \* [known, ok, consumed, short]
       acc == rr.ok
@@ -24,6 +28,14 @@ JReadOne(fn, in, rr, e) ==
      R("C01", "ser_eq_consumed_after_queries", acc /\ rr.serok /\ "stab" \in DOMAIN rr /\ rr.stab.done /\ rr.stab.reser,
        rr.stab.ser2 = rr.ser, cls),
      R("C02", "accessors_stable_under_queries", acc /\ "stab" \in DOMAIN rr /\ rr.stab.done, Len(rr.stab.unstable) = 0, cls),
+     \* the same observation under the property that speaks about the query that changed its answer
+     R("C07", "hash_and_address_queries_stable", acc /\ "stab" \in DOMAIN rr /\ rr.stab.done, \A i \in 1..Len(rr.stab.unstable) : rr.stab.unstable[i] \notin HashQueries, cls),
+     R("C05", "verification_queries_stable", acc /\ "stab" \in DOMAIN rr /\ rr.stab.done, \A i \in 1..Len(rr.stab.unstable) : rr.stab.unstable[i] \notin VerifyQueries, cls),
+     R("C14", "validation_queries_stable", acc /\ "stab" \in DOMAIN rr /\ rr.stab.done, \A i \in 1..Len(rr.stab.unstable) : rr.stab.unstable[i] \notin ValidateQueries, cls),
+     R("C15", "time_queries_stable", acc /\ "stab" \in DOMAIN rr /\ rr.stab.done, \A i \in 1..Len(rr.stab.unstable) : rr.stab.unstable[i] \notin TimeQueries, cls),
+     R("C17", "address_queries_stable", acc /\ "stab" \in DOMAIN rr /\ rr.stab.done /\ fn = "ReadRouterAddress", Len(rr.stab.unstable) = 0, cls),
+     \* the parser and the queries leave the caller's buffer alone
+     R("C08", "input_buffer_not_written", "in_unchanged" \in DOMAIN rr, rr.in_unchanged, cls),
      R("C03", "rem_is_suffix", acc /\ rr.hasrem, IsSuffix(rr.rem, in), cls),
      R("C03", "consumes_declared_extent", acc /\ rr.hasrem /\ ref.known /\ ref.ok,
        consumed = ref.consumed, cls),
